@@ -293,7 +293,7 @@ func newSvg(node *cascadedNode, tree *svgContext) (drawable, error) {
 	var out svg
 	out.preserveRatio = node.attrs.aspectRatio()
 	out.isRoot = node == tree.root
-	if overflow := node.attrs["overflow"]; overflow == "" || overflow == "hidden" {
+	if overflow := node.attrs["overflow"]; overflow == "" || overflow == "hidden" || overflow == "scroll" {
 		out.isOverflowHidden = true
 	}
 
